@@ -52,6 +52,7 @@ class Loopback:
         self.script = script
         self.log: list[Recorded] = []
         self.probes: list[Recorded] = []
+        self.probe_reply: Reply | None = None  # what capability probes are answered with (default: 200)
         self.lock = threading.Lock()
         self.counts: dict = {}
         self.gates: dict[str, threading.Event] = {}
@@ -69,7 +70,7 @@ class Loopback:
                 if rec.header("X-Schemathesis-Probe") is not None:
                     with outer.lock:
                         outer.probes.append(rec)
-                    return self._send(Reply())
+                    return self._send(outer.probe_reply or Reply())
                 with outer.lock:
                     key = (rec.method, rec.path)
                     rec.ordinal = outer.counts.get(key, 0)
@@ -158,4 +159,5 @@ def shared(script=None) -> Loopback:
     srv.reset()
     srv.script = script
     srv.on_request = None
+    srv.probe_reply = None
     return srv
